@@ -354,9 +354,39 @@ impl Array4 {
                         "duplicate aux map entry for slot {slot}"
                     )));
                 }
+                // an aux entry holds a register that does not fit a nibble above cur_min
+                if value < cur_min || value - cur_min < AUX_TOKEN {
+                    return Err(Error::deserial(format!(
+                        "aux map entry for slot {slot} has value {value}, below cur_min {cur_min} + {AUX_TOKEN}"
+                    )));
+                }
                 aux.insert(slot, value);
             }
             aux_map = Some(aux);
+        }
+
+        // Updates look the aux entry of an exception nibble up unconditionally: every exception
+        // nibble needs its aux entry, and every aux entry its exception nibble
+        let nibble = |slot: u32| {
+            let byte = data[(slot >> 1) as usize];
+            if slot & 1 == 0 {
+                byte & 0x0F
+            } else {
+                byte >> 4
+            }
+        };
+        let num_exceptions = (0..1u32 << lg_config_k)
+            .filter(|&slot| nibble(slot) == AUX_TOKEN)
+            .count();
+        let num_covered = aux_map.as_ref().map_or(0, |aux| {
+            aux.iter()
+                .filter(|&(slot, _)| nibble(slot) == AUX_TOKEN)
+                .count()
+        });
+        if num_exceptions != aux_count as usize || num_covered != aux_count as usize {
+            return Err(Error::deserial(format!(
+                "{num_exceptions} exception slots but {aux_count} aux map entries, {num_covered} of them on exception slots"
+            )));
         }
 
         // Create estimator and restore state
